@@ -11,8 +11,8 @@ RULE = ("kinds: steps (non-adaptive method, no intervention: every recorded step
         "implicit methods may shorten only with a logged Newton failure), shift ((t0,tf) vs (t0+c,tf+c) on an autonomous system), "
         "reflect (y'=f(y) on (t0,tf) vs w'=-f(w) on (-t0,-tf)); non-trivial = >=3 full-length steps; distinct by (kind,method,span,dt,shift)")
 ASSUMPTIONS = ["the set of fixed-step methods is computed at run time from is_adaptive", "dt >= 64 ulp of the largest time"]
-FLOORS = {"quick": {"runs_checked": 120, "full_length_steps": 1200, "shift_pairs": 30, "reflect_pairs": 30, "backward_runs": 40, "multi_leg_runs": 12, "richardson_pairs": 6, "facade_runs": 10, "facade_runs_backward": 3, "sliver_remainder_runs": 15},
-          "thorough": {"runs_checked": 1200, "full_length_steps": 12000, "shift_pairs": 120, "reflect_pairs": 120, "backward_runs": 400, "multi_leg_runs": 120, "richardson_pairs": 24, "facade_runs": 100, "facade_runs_backward": 30, "sliver_remainder_runs": 60}}
+FLOORS = {"quick": {"runs_checked": 120, "full_length_steps": 1200, "shift_pairs": 30, "reflect_pairs": 30, "backward_runs": 40, "multi_leg_runs": 12, "richardson_pairs": 6, "facade_runs": 10, "facade_runs_backward": 3, "sliver_remainder_runs": 15, "shift_pairs_far_from_the_origin": 12, "dt_changed_between_calls": 20},
+          "thorough": {"runs_checked": 1200, "full_length_steps": 12000, "shift_pairs": 120, "reflect_pairs": 120, "backward_runs": 400, "multi_leg_runs": 120, "richardson_pairs": 24, "facade_runs": 100, "facade_runs_backward": 30, "sliver_remainder_runs": 60, "shift_pairs_far_from_the_origin": 60, "dt_changed_between_calls": 100}}
 SPANS = [(0.0, 2.0), (-5.0, 1.0), (-10.0, -5.0), (10.0, 5.0), (1.0, -5.0), (3.0, -3.0), (0.0, -2.0), (-2.0, 0.0), (-0.5, 0.25), (7.0, 7.5), (100.0, 103.0)]
 SHIFTS = [1.0, -1.0, 7.3, -7.3, 1e3, -1e3]
 K = 64
@@ -87,6 +87,31 @@ def gen_cases(tier, seed):
                               dt=float(rng2.choice([-1, 1])) * L / nsteps, nsteps=nsteps, pseed=int(rng2.integers(1 << 30)), legs=[], sliver=True, cost=nsteps / 10.0))
             if rng2.random() < 0.4:
                 cases.append(dict(cases[-1], route="solve_ivp", dtype="float64", dt=abs(cases[-1]["dt"]), by_name=bool(rng2.random() < 0.5), pseed=int(rng2.integers(1 << 30))))
+    # the requested step is changed through the dt setter between two calls of one system (lowered or raised): every call steps with the step
+    # requested for it, from its first step to its last full one
+    for name in fixed:
+        if not M[name]["explicit"]:
+            continue
+        for rep in range(2 if tier == "quick" else 6):
+            span = SPANS[int(rng2.integers(len(SPANS)))]
+            L = abs(span[1] - span[0])
+            nsteps = float(rng2.choice([16.0, 33.3, 64.0]))
+            cuts = sorted(float(x) for x in rng2.uniform(0.2, 0.8, 2))
+            if cuts[1] - cuts[0] < 0.15:
+                cuts = [0.3, 0.65]
+            cases.append(dict(kind="steps", method=name, dtype="float64", span=list(span), dt=float(rng2.choice([-1, 1])) * L / nsteps, nsteps=nsteps, pseed=int(rng2.integers(1 << 30)),
+                              legs=cuts, leg_dt_factors=[float(rng2.choice([0.25, 0.5, 0.37, 2.0])), float(rng2.choice([0.25, 0.5, 1.5, 3.0]))], cost=nsteps / 5.0))
+    # shifts by 1e7 .. 2e9 (a clock in epoch seconds): one ulp of the time axis is 2e-9 .. 2e-7 there, still far below the steps
+    for name in M:
+        info = M[name]
+        if not info["explicit"] and tier == "quick" and rng2.random() < 0.6:
+            continue
+        for rep in range(1 if tier == "quick" else 3):
+            span = [(0.0, 2.0), (1.0, -5.0), (3.0, -3.0), (-0.5, 0.25), (7.0, 7.5)][int(rng2.integers(5))]
+            L = abs(span[1] - span[0])
+            nsteps = float(rng2.choice([5.0, 12.5, 40.0]))
+            cases.append(dict(kind="shift", method=name, dtype="float64", span=list(span), dt=L / nsteps, nsteps=nsteps, shift=float(rng2.choice([1e7, -1e7, 1.7e9, -1.7e9, 3.1e8])),
+                              far=True, pseed=int(rng2.integers(1 << 30)), cost=(2 if info["explicit"] else 16)))
     for name in M:
         info = M[name]
         for rep in range(1 if tier == "quick" else 6):
@@ -177,7 +202,20 @@ def _steps(spec, info, prob, dtype, eps, t0, tf, d, tol, rec, feats):
         slog = StepLog(system.integrator)
         leg_ends = []
         seg = None
-        for fr in legs + [None]:
+        facs = list(spec.get("leg_dt_factors") or [])
+        leg_dts = [abs(spec["dt"])]
+        for li, fr in enumerate(legs + [None]):
+            if li > 0 and facs:
+                fac_ = facs[(li - 1) % len(facs)]
+                leg_len = abs((tf if fr is None else t0 + fr * (tf - t0)) - float(system.t[-1]))
+                if abs(spec["dt"]) * fac_ * 1.6 > leg_len:
+                    fac_ = 0.5          # (the property presupposes dt <= span for every call)
+                newdt = dtype.type(abs(spec["dt"]) * fac_)
+                system.dt = newdt if d > 0 else -newdt
+                leg_dts.append(float(newdt))
+                rec.bump("dt_changed_between_calls")
+            elif li > 0:
+                leg_dts.append(leg_dts[-1])
             seg = sysrun.call_integrate(system, t=None if fr is None else t0 + fr * (tf - t0), max_steps=100000)
             leg_ends.append(len(system) - 1)
             if seg["raised"]:
@@ -207,7 +245,17 @@ def _steps(spec, info, prob, dtype, eps, t0, tf, d, tol, rec, feats):
     dtl = np.longdouble(np.asarray(dt, dtype=dtype))   # the step as representable in the run's precision
     closing = set([len(steps) - 1] + [e - 1 for e in leg_ends if e is not None])     # index of the closing step of every call
     inner = np.array([i for i in range(len(steps)) if i not in closing], dtype=int)
-    nfull = int(np.sum(np.abs(steps[inner] - dtl) <= unit)) if len(inner) else 0
+    if spec.get("leg_dt_factors") and legs:
+        # the step requested for the call each recorded step belongs to
+        dtl = np.empty(len(steps), dtype=np.longdouble)
+        lo_ = 0
+        for li, e_ in enumerate(leg_ends):
+            dtl[lo_:e_] = np.longdouble(np.asarray(leg_dts[li], dtype=dtype))
+            lo_ = e_
+        feats = dict(feats, dt_changed_between_calls=True)
+    else:
+        dtl = np.full(len(steps), dtl, dtype=np.longdouble)
+    nfull = int(np.sum(np.abs(steps[inner] - dtl[inner]) <= unit)) if len(inner) else 0
     rec.bump("full_length_steps", nfull)
     rec.nontrivial = nfull >= 3
     rec.sample = {"spec": spec, "rows": len(t), "first_steps": [float(x) for x in steps[:4]], "last_step": float(steps[-1]) if len(steps) else None}
@@ -221,18 +269,18 @@ def _steps(spec, info, prob, dtype, eps, t0, tf, d, tol, rec, feats):
         mech = "step_longer_than_dt"
         if info["family"] == "implicit_fixed":
             growth = steps[1:] / steps[:-1]
-            g = float(np.max(growth[: max(1, len(growth) - 1)])) if len(growth) else float(steps[0] / dtl)
-            g = max(g, float(steps[0] / dtl))
+            g = float(np.max(growth[: max(1, len(growth) - 1)])) if len(growth) else float(steps[0] / dtl[0])
+            g = max(g, float(steps[0] / dtl[0]))
             mech = "controller_grows_step_of_nonadaptive_implicit_method" if g <= 3.0 else "step_longer_than_dt_unexplained"
-        rec.violate("fixed_step_longer", mech, feats, at=j, step=float(steps[j]), dt=float(dtl), rows=len(t))
-    shorter = np.array([i for i in inner if steps[i] < dtl * (1 - K * eps) - unit], dtype=int)
+        rec.violate("fixed_step_longer", mech, feats, at=j, step=float(steps[j]), dt=float(dtl[j]), rows=len(t))
+    shorter = np.array([i for i in inner if steps[i] < dtl[i] * (1 - K * eps) - unit], dtype=int)
     if len(shorter):
         j = int(shorter[0])
         feats = dict(feats, multi_leg=bool(legs))
         if info["explicit"] or not newton_failed:
             # after a legitimate shortening the following steps restart from the shortened size: only flag when
             # no Newton failure at all was logged in this run
-            rec.violate("fixed_step_shorter", "step_shorter_than_dt_without_convergence_failure", feats, at=j, step=float(steps[j]), dt=float(dtl), rows=len(t))
+            rec.violate("fixed_step_shorter", "step_shorter_than_dt_without_convergence_failure", feats, at=j, step=float(steps[j]), dt=float(dtl[j]), rows=len(t))
         else:
             rec.bump("implicit_shortening_with_logged_newton_failure")
     return rec.out()
@@ -304,6 +352,8 @@ def _shift(spec, info, prob, dtype, eps, t0, tf, d, tol, rec, feats):
                         cause_a=repr(getattr(sega["exc"], "__cause__", None))[:200], cause_b=repr(getattr(segb["exc"], "__cause__", None))[:200])
         return rec.out()
     rec.bump("shift_pairs")
+    if spec.get("far"):
+        rec.bump("shift_pairs_far_from_the_origin")
     if spec.get("rich"):
         rec.bump("richardson_pairs")
     rec.bump("runs_checked", 2)
